@@ -43,11 +43,15 @@ HELPERS = {f"{CG}.{x}" for x in (
     "node_not_an_intervention_in_world", "stitch_counterfactual_and_doppleganger_neighbors", "stitch_counterfactual_and_dopplegangers",
     "stitch_counterfactual_and_neighbors", "stitch_factual_and_doppleganger_neighbors", "stitch_factual_and_dopplegangers", "World")}
 
+# the two cross-world stitching families are inlined when the parallel-worlds graph is compared: they range over pairs of worlds, so whether the
+# construction guards them with "at least two worlds" or not is the same graph
+CROSS_WORLD = {f"{CG}.stitch_counterfactual_and_doppleganger_neighbors", f"{CG}.stitch_counterfactual_and_dopplegangers"}
+
 TABLE = [
     ("R18.1", f"{CG}.make_counterfactual_graph", "counterfactual_graph", {"graph": G, "event": EVT}, HELPERS, "make-cg",
      "private copy of the event; nodes of G in topological order; node vs its copy in every world, then copies of every unordered pair of worlds; each test, merge, "
      "conflict check and relabelling acts on the CURRENT graph and the CURRENT relabelled event; None right after a conflicting merge; result (H[An(E)], E)"),
-    ("R18.4", f"{CG}.make_parallel_worlds_graph", "parallel_worlds_graph", {"graph": G, "worlds": W}, HELPERS, "parallel-worlds",
+    ("R18.4", f"{CG}.make_parallel_worlds_graph", "parallel_worlds_graph", {"graph": G, "worlds": W}, HELPERS - CROSS_WORLD, "parallel-worlds",
      "G plus one copy per world; directed copies except into intervened nodes; the five stitching families; cross-world families only with ≥2 worlds"),
     ("R18.4", f"{CG}.extract_interventions", "worlds_of", {"variables": ("iter", VV)}, HELPERS, "worlds", "one world per distinct subscript set of the event"),
     ("R18.4", f"{CG}._get_directed_edges", "directed_copies", {"graph": G, "worlds": W}, HELPERS, "family:directed-copies", "u_w -> v_w for every edge u -> v unless v is intervened in w"),
